@@ -15,6 +15,8 @@
         _lines_iterator_from_replacements, [-at] via original_and_model_iter_from_file_line_iter)
       - impls/types/string_transformer/impl/strip_space.py  (three streaming algorithms)
       - impls/types/string_transformer/impl/case_converters.py, identity.py, sequence.py
+      - impls/types/string_transformer/impl/filter/line_nums/*.py: through Model/LineNums.v
+        [line_nums_transform] (built and proved exact for C13 part 2), clause [TFilterLineNums]
       - impls/types/string_transformer/impl/filter/line_matcher.py (the [TFilter] clause of [eval_t]:
         every numbered line is offered to the matcher; the read-ahead interval that limits which
         lines the implementation reads is modelled in Model/Interval.v [filter_impl] (C13) and
@@ -28,7 +30,7 @@
 
     Executable definitions ONLY (no proofs). *)
 From Coq Require Import ZArith NArith List Bool.
-From Exactly Require Import Lib.Text Model.Interval.
+From Exactly Require Import Lib.Text Model.Interval Model.LineNums.
 Import ListNotations.
 
 Inductive quant := QAll | QAny.
@@ -64,6 +66,7 @@ with ttrans :=
 | TUpper
 | TLower
 | TFilter (lm : lmatcher)         (* [grep [-full] R] is parsed to [filter contents matches [-full] R] *)
+| TFilterLineNums (rs : list range)   (* [filter -line-nums RANGE...]: the model of C13 part 2 (Model/LineNums.v) *)
 | TSeq (a b : ttrans)
 with tsource :=
 | SrcStr (t : text)               (* RICH-STRING / here-document *)
@@ -82,6 +85,13 @@ Definition file_src (t : text) : src := Src (lines_lf t) true true.
 Definition str_src (t : text) : src := Src (lines_lf t) false false.
 
 Definition tlen (t : text) : N := N.of_nat (length t).
+
+(** [filter -line-nums]: Model/LineNums.v [line_nums_transform] returns [None] when an IndexError
+    escapes from a pocket (a deque).  Here that is the ill-formed line sequence [[""]], which no
+    output of the implementation equals (an escaping exception is recorded by the harness as a
+    property failure); C13_line_nums_exact proves [None] unreachable, and the C05 theorems use it. *)
+Definition lines_or_index_error (o : option (list text)) : list text :=
+  match o with Some ls => ls | None => [[]] end.
 
 (** [l = body ++ "\n"] *)
 Fixpoint chop_nl (l : text) : option text :=
@@ -318,6 +328,10 @@ Section Oracles.
         cached_from_lines
           (map fst (filter (fun line => eval_lm lm (fst (snd line)) (snd (snd line)))
                            (original_and_model_iter (s_lines s))))
+    | TFilterLineNums rs =>
+        (* ten single-range sources / segments source / multiple ranges with negative values: one of
+           [sources.py]'s cached sources; the flags are not modelled per variant (information only) *)
+        from_lines false (lines_or_index_error (line_nums_transform rs (s_lines s))) s
     | TSeq a b => eval_t b (eval_t a s)
     end
   with eval_src (e : tsource) {struct e} : src :=
